@@ -231,7 +231,8 @@ def oob_case(item):
 def strategy_run_case(item):
     """temp empty at entry, perm persists, own stack before children, each child once per run"""
     bt = rt.bt()
-    shape, nruns, second_algo_fails = item
+    shape, nruns, second_algo_fails = item[:3]
+    intruder = item[3] if len(item) > 3 else None
     events = []
 
     class W(bt.core.Algo):
@@ -242,6 +243,11 @@ def strategy_run_case(item):
 
         def __call__(self, target):
             events.append((self.tag, target, dict(target.temp), dict(target.perm)))
+            if intruder == "parent" and self.tag.endswith(".1"):
+                # a parent's algo leaves a note in its sub-strategies' temp before they run
+                for c in target.children.values():
+                    if isinstance(c, bt.core.StrategyBase):
+                        c.temp["note_from_parent"] = 1
             target.temp[self.tag] = target.temp.get(self.tag, 0) + 1
             target.perm[self.tag] = target.perm.get(self.tag, 0) + 1
             return self.ret
@@ -264,6 +270,11 @@ def strategy_run_case(item):
     names = [n.name for n in root.members if isinstance(n, bt.core.StrategyBase)]
     for r in range(nruns):
         del events[:]
+        if intruder == "between":
+            # something written into temp after the previous run ended (user code, an algo called by hand)
+            for n in root.members:
+                if isinstance(n, bt.core.StrategyBase):
+                    n.temp["note_between_runs"] = r
         root.run()
         mine = [(tag, tgt, temp, perm) for tag, tgt, temp, perm in events if tgt.root is root]
         order = [tag for tag, _, _, _ in mine]
@@ -303,7 +314,8 @@ def replay(case):
         return [v for v in require_case(None)[2] if v["where"] == case["where"]]
     if k == "oob":
         return oob_case(tuple(case["where"]))[2]
-    return strategy_run_case(tuple(case["where"][:3]))[2]
+    w = case["where"]
+    return strategy_run_case(tuple(w[:4]) if len(w) > 4 else tuple(w[:3]))[2]
 
 
 def run(ctx):
@@ -337,7 +349,7 @@ def run(ctx):
             ctx.mark(("oob", kind, json.dumps(item)))
             for v in viols:
                 ctx.violation(dict(v, build=kind, module=MOD, case={"kind": "oob", "where": list(item)}))
-        runs = [(shape, 3, fails) for shape in ("one", "two", "three") for fails in (False, True)]
+        runs = [(shape, 3, fails, intr) for shape in ("one", "two", "three") for fails in (False, True) for intr in (None, "between", "parent")]
         for item, (n, nout, viols, nv) in ctx.run(kind, MOD, "strategy_run_case", runs, chunksize=1):
             ctx.add(states=1, transitions=n, traces_validated_against_impl=n, evaluations=n)
             ctx.mark(("run", kind) + tuple(map(str, item)))
